@@ -99,8 +99,18 @@ func (o *c04) State(c *core.Ctx) {
 	for _, m := range t.Order {
 		var hj hdrJSON
 		r := get("/api/v1/chain/header/" + m.Hash)
-		if r.Code != 200 || !r.JSON(&hj) || hj.Hash != m.Hash {
+		if r.Code != 200 || !r.JSON(&hj) || !hj.matches(m) {
 			o.viol(c, "byhash.stored", "GET header/{hash} for a stored header", m.Hash, fmt.Sprintf("%d %s", r.Code, trunc(r.Body)))
+		}
+		var sj struct {
+			Header    hdrJSON `json:"header"`
+			State     string  `json:"state"`
+			ChainWork string  `json:"chainWork"`
+			Height    int32   `json:"height"`
+		}
+		r = get("/api/v1/chain/header/state/" + m.Hash)
+		if r.Code != 200 || !r.JSON(&sj) || !sj.Header.matches(m) || sj.State != labels[m.Hash] || sj.Height != m.Height || sj.ChainWork != m.Cum.String() {
+			o.viol(c, "bystate.stored", "GET header/state/{hash} must return that header with its current state", fmt.Sprint(m.Hash[:8], " ", labels[m.Hash], " h", m.Height), fmt.Sprintf("%d %s", r.Code, trunc(r.Body)))
 		}
 	}
 	for _, bad := range []string{unknownHash, "xyz", unknownHash[:63]} {
